@@ -62,3 +62,98 @@ def angdiff(a, b, period=360.0):
     """smallest signed difference a-b modulo period"""
     d = (np.asarray(a, dtype=float) - np.asarray(b, dtype=float)) % period
     return np.where(d > period / 2, d - period, d)
+
+
+# --------------------------------------------------------------- FITS WCS
+class ZWCS(object):
+    """Zenithal FITS-WCS (SIN/TAN/ZEA/ARC/STG; Calabretta & Greisen 2002), no
+    rotation (diagonal CDELT/CD), LONPOLE=180 (valid for CRVAL2 < 90).
+    Pixel coordinates are FITS 1-based (axis1, axis2)."""
+
+    PROJ = ("SIN", "TAN", "ZEA", "ARC", "STG")
+
+    def __init__(self, proj, crval1, crval2, crpix1, crpix2, cdelt1, cdelt2):
+        assert proj in self.PROJ
+        self.proj = proj
+        self.crval1, self.crval2 = float(crval1), float(crval2)
+        self.crpix1, self.crpix2 = float(crpix1), float(crpix2)
+        self.cdelt1, self.cdelt2 = float(cdelt1), float(cdelt2)
+
+    @classmethod
+    def from_header(cls, h):
+        proj = str(h["CTYPE1"])[-3:]
+        cd1 = h["CDELT1"] if "CDELT1" in h else h["CD1_1"]
+        cd2 = h["CDELT2"] if "CDELT2" in h else h["CD2_2"]
+        return cls(proj, h["CRVAL1"], h["CRVAL2"], h["CRPIX1"], h["CRPIX2"], cd1, cd2)
+
+    def header_cards(self, cd=False):
+        c = {"CTYPE1": "RA---" + self.proj, "CTYPE2": "DEC--" + self.proj,
+             "CRVAL1": self.crval1, "CRVAL2": self.crval2,
+             "CRPIX1": self.crpix1, "CRPIX2": self.crpix2,
+             "CUNIT1": "deg", "CUNIT2": "deg"}
+        if cd:
+            c.update({"CD1_1": self.cdelt1, "CD2_2": self.cdelt2, "CD1_2": 0.0, "CD2_1": 0.0})
+        else:
+            c.update({"CDELT1": self.cdelt1, "CDELT2": self.cdelt2})
+        return c
+
+    # colatitude c(rho) (rad) with rho = R in radians
+    def _colat(self, rho):
+        p = self.proj
+        if p == "TAN":
+            return np.arctan(rho)
+        if p == "SIN":
+            return np.arcsin(np.clip(rho, -1, 1))
+        if p == "ARC":
+            return rho
+        if p == "STG":
+            return 2 * np.arctan(rho / 2)
+        if p == "ZEA":
+            return 2 * np.arcsin(np.clip(rho / 2, -1, 1))
+
+    def _rho(self, c):
+        p = self.proj
+        if p == "TAN":
+            return np.tan(c)
+        if p == "SIN":
+            return np.sin(c)
+        if p == "ARC":
+            return c
+        if p == "STG":
+            return 2 * np.tan(c / 2)
+        if p == "ZEA":
+            return 2 * np.sin(c / 2)
+
+    def pix2sky(self, p1, p2):
+        x = (np.asarray(p1, dtype=float) - self.crpix1) * self.cdelt1 * D2R
+        y = (np.asarray(p2, dtype=float) - self.crpix2) * self.cdelt2 * D2R
+        rho = np.hypot(x, y)
+        c = self._colat(rho)
+        with np.errstate(invalid="ignore", divide="ignore"):
+            ux = np.where(rho > 0, x / rho, 0.0)
+            uy = np.where(rho > 0, y / rho, 0.0)
+        sc, cc = np.sin(c), np.cos(c)        # sc = cos(theta), cc = sin(theta)
+        sdp, cdp = math.sin(self.crval2 * D2R), math.cos(self.crval2 * D2R)
+        sin_d = cc * sdp + sc * cdp * uy
+        a = sc * ux                          # cos(dec) sin(dra)
+        b = cc * cdp - sc * sdp * uy         # cos(dec) cos(dra)
+        ra = self.crval1 + np.arctan2(a, b) * R2D
+        dec = np.arctan2(sin_d, np.hypot(a, b)) * R2D
+        return np.mod(ra, 360.0), dec
+
+    def sky2pix(self, ra, dec):
+        dra = (np.asarray(ra, dtype=float) - self.crval1) * D2R
+        d = np.asarray(dec, dtype=float) * D2R
+        dp = self.crval2 * D2R
+        # components of the direction in the native frame (pole = reference point)
+        a = np.cos(d) * np.sin(dra)                                           # = cos(theta) ux
+        b = np.sin(d - dp) + 2 * np.cos(d) * math.sin(dp) * np.sin(dra / 2) ** 2  # = cos(theta) uy
+        s = np.sin(d) * math.sin(dp) + np.cos(d) * math.cos(dp) * np.cos(dra)     # = sin(theta)
+        r = np.hypot(a, b)
+        c = np.arctan2(r, s)
+        rho = self._rho(c)
+        with np.errstate(invalid="ignore", divide="ignore"):
+            ux = np.where(r > 0, a / r, 0.0)
+            uy = np.where(r > 0, b / r, 0.0)
+        x, y = rho * ux * R2D, rho * uy * R2D
+        return x / self.cdelt1 + self.crpix1, y / self.cdelt2 + self.crpix2
